@@ -230,7 +230,7 @@ func (x *Exec) Apply(ev Event) *Viol { //nolint:gocyclo,cyclop,maintidx,gocognit
 			return x.viol("resp", "relay-family", ev, ra.String())
 		}
 		m.Allocs[ev.C] = &MAlloc{Client: ev.C, User: c.User, Fam: fam, TCP: ev.TCP, Relay: ra, Exp: now.Add(granted),
-			Granted: granted, Tx: res.Tx, Perms: map[string]time.Time{}, Chans: map[uint16]*MChan{}}
+			Granted: granted, Granted0: granted, Tx: res.Tx, Perms: map[string]time.Time{}, Chans: map[uint16]*MChan{}}
 
 		return nil
 
